@@ -166,12 +166,14 @@ Fixpoint unmarshal_r (vf : nat) (be : bool) (r : rty) (c : uctx) {struct vf} : o
              match parse_description (fst r) with
              | Ok [t'] =>
                  do c1 <- u_align (align t') (snd r);
+                 (* sub_context_for_value: the sub-context is split off while the depth is raised (depth + 1);
+                    leave_container on the outer context *)
                  do c2 <- u_enter c1;
-                 do n <- validate 66 be (udepth c2) (uoff c1) (ubuf c1) t';
-                 do s <- u_sub n c1;
+                 do n <- validate 66 be (udepth c2) (uoff c2) (ubuf c2) t';
+                 do s <- u_sub n c2;
                  if ty_eqb t' (sig_r x) then
                    do v <- unmarshal_r vf' be x (fst s);
-                   Ok (VVariant t' (fst v), snd s)
+                   Ok (VVariant t' (fst v), u_leave (snd s))
                  else Err
              | _ => Err
              end
